@@ -165,6 +165,11 @@ Definition add_child (p : nat) (ch : deme) : deme :=
 Definition p_append_level (l : nat) (ch : deme) : D unit := fun s evs =>
   if negb (Nat.eqb l (d_lvl ch)) then None else Some (tt, with_ms s (set_demes (ms s) (demes (ms s) ++ [ch])), evs).
 
+(* parent.add_child(child) for a child that already joined its level (the two statements commute in python: one object): the parent link is set
+   on the deme that was appended last *)
+Definition p_adopt_last (p : nat) : D unit := fun s evs =>
+  let ds := demes (ms s) in Some (tt, with_ms s (set_demes (ms s) (upd (length ds - 1) (add_child p) ds)), evs).
+
 (* running a program from a machine state *)
 Definition exec {A} (m : D A) (s : st) (evs : list event) : option (A * st * list event) :=
   match m {| ms := s; pend := [] |} evs with Some (a, s', r) => Some (a, ms s', r) | None => None end.
